@@ -11,6 +11,7 @@
 (* Byte strings are compared through tokens interned by byte equality.     *)
 (***************************************************************************)
 EXTENDS Integers, Sequences, FiniteSets, TLC, Json, IOUtils
+LOCAL INSTANCE SequencesExt
 
 Rec == ndJsonDeserialize(IOEnv.TRACE)
 VARIABLES l, nfail
@@ -32,8 +33,21 @@ FaultTags(e) ==
   ELSE (IF \E k \in 1..Len(e.runs) : e.runs[k].res = "ok" THEN {"C15:success_reported_although_stream_failed"} ELSE {})
        \cup (IF \E k \in 1..Len(e.runs) : e.runs[k].res \notin {"ok", "err"} THEN {"C15:crash_on_io_failure"} ELSE {})
 
+\* the stream image after the first k recorded operations of a write into a fresh stream (holes read as zero)
+PutBytes(img, pos, b) ==
+  LET n == IF pos + Len(b) > Len(img) THEN pos + Len(b) ELSE Len(img)
+  IN [i \in 1..n |-> IF i > pos /\ i <= pos + Len(b) THEN b[i - pos] ELSE IF i <= Len(img) THEN img[i] ELSE 0]
+ImageAfter(ops, k) ==
+  FoldLeft(LAMBDA img, j : IF ops[j].k = "w" THEN PutBytes(img, ops[j].pos, ops[j].bytes) ELSE img, << >>, [j \in 1..k |-> j])
+\* where the operations are in the trace, "same" is recomputed here and must agree with what the harness reported
+SameFlagsOK(e) ==
+  LET final == ImageAfter(e.ops, Len(e.ops)) IN
+  /\ Len(e.ops) = e.n
+  /\ \A r \in 1..Len(e.runs) : e.runs[r].same = (ImageAfter(e.ops, e.runs[r].k) = final)
+
 CrashTags(e) ==
   IF e.base_res # "ok" \/ ~e.final_equals_stream THEN {"STIMULUS_baseline_failed"}
+  ELSE IF "ops" \in DOMAIN e /\ ~SameFlagsOK(e) THEN {"TRANSPORT_image_equality_flags_disagree_with_rebuilt_images"}
   ELSE LET last == e.runs[Len(e.runs)] IN
        (IF last.k # e.n \/ last.res # "ok" \/ ~last.same THEN {"C17:complete_output_does_not_open"} ELSE {})
        \cup (IF \E k \in 1..Len(e.runs) : e.runs[k].res = "ok" /\ ~e.runs[k].same
